@@ -60,7 +60,7 @@ static std::string structural(Ctx &c, const gen::ZFile &z, Bytes &out, bool keep
 static std::string run_unzck(const std::string &tools, const Bytes &file, Bytes &out, int *exit_code);
 
 static void prop(Ctx &c) {
-    gen::ZFileOpts o; o.max_chunks = c.tier ? 12 : 8; o.max_chunk = c.tier ? 20000 : 4000; o.allow_empty = false;
+    gen::ZFileOpts o; o.max_chunks = c.tier ? 12 : 8; o.max_chunk = c.tier ? 20000 : 4000; o.allow_empty = false; o.big_rate = 10; o.big_huge = c.tier != 0;
     gen::ZFile z = gen::zfile(c, o);
     Bytes m; std::string md; bool structural_mut = c.boolean();
     // a reader that pins the authentic header digest (as package managers do) must be at least as strict
@@ -69,6 +69,7 @@ static void prop(Ctx &c) {
     else { m = z.file; size_t nm = 1 + c.draw(1); for (size_t i = 0; i < nm; i++) md += gen::mutate_raw(c, m, z.h.total_size) + "; "; if (c.rarely(4)) { ref::reseal(m); md += "(header re-sealed) "; }
            if (c.gver >= 2 && c.rarely(6) && m.size() >= 5 && memcmp(m.data(), "\0ZCK1", 5) == 0) { memcpy(m.data(), "\0ZHR1", 5); md += "file identifier switched to ZHR1; "; } }
     std::vector<size_t> rs = gen::rhistory(c);
+    if (z.D.size() > 30000) for (auto &x : rs) if (x < 512) x += 512;      // tiny reads of a large file are quadratic in the library
     c.desc << z.desc << " alterations{" << md << "} reads=" << gen::sizes_str(rs) << (pinned ? " PINNED-OPEN" : "");
     if (m == z.file) { c.label("unchanged"); }
     // reference verdict
